@@ -240,10 +240,13 @@ class GriffeLoader:
 
             prev_unresolved: set[str] = set()
             unresolved = set("0")  # Init to enter loop.
-            while unresolved and unresolved != prev_unresolved and iteration < max_iterations:  # type: ignore[operator]
+            resolved: set[str] = set()
+            # Iterate again as long as an iteration resolved something: aliases visited before
+            # the ones that just got resolved could now be resolved too.
+            while unresolved and (unresolved != prev_unresolved or resolved) and iteration < max_iterations:  # type: ignore[operator]
                 prev_unresolved = unresolved - {"0"}
                 unresolved = set()
-                resolved: set[str] = set()
+                resolved = set()
                 iteration += 1
                 for module_name in list(collection.keys()):
                     module = collection[module_name]
